@@ -52,6 +52,12 @@ class Heap:
         out = []
         alloc = self.initial(self.alloc_key())[0]
         o, i = z3.Ints('o_ i_')
+        if ('list', 'len') in self.sorts:
+            ln0 = self.initial(self.list_len_key())[0]
+            out.append(z3.ForAll([o], z3.Select(ln0, o) >= 0, patterns=[z3.Select(ln0, o)]))
+        if ('dict', 'size') in self.sorts:
+            sz0 = self.initial(self.dict_size_key())[0]
+            out.append(z3.ForAll([o], z3.Select(sz0, o) >= 0, patterns=[z3.Select(sz0, o)]))
         for key in list(self.sorts):
             if key[0] == 'reffield':
                 f = self.initial(('f', key[1]))[0]
